@@ -1,6 +1,7 @@
 """C27 - cpdef calls reach the most-derived override (DESIGN 7/C27)."""
 import json, os
 import cybuild
+import props.C27_vtable as vtab
 
 TITLE = "cpdef calls reach the most-derived override"
 EXTRACTS = ["Override"]
@@ -9,7 +10,11 @@ RULE = ("generated forests of extension types (depth <= 3; cpdef / plain def / i
         "Python subclasses (with/without __slots__, optional mixin before/after the extension base) and a history "
         "(length 4..16) of set/replace/delete of attribute m on classes and instances, instance creation, o.m() from "
         "Python, o.m() from a cdef-typed caller (vtable), K.m(o); distinct by (variant, hierarchy, history); every "
-        "history contains at least one C-level call")
+        "history contains at least one C-level call.  Vtable part (props/C27_vtable.py): forests of depth <= 4 whose m is per class "
+        "undeclared / cdef / cpdef / plain def with 0..2 optional arguments, final cdef methods, final classes, parent-calling "
+        "bodies (8 fixed chains covering every branch of declare_cfunction / generate_wrapper_functions + random ones); call sites "
+        "`T o; o.m()`, `o.m(5)`, `self.m()` for EVERY class T of the chain; histories additionally with super()-calling overrides and "
+        "bound methods kept across mutations; every object is finally called through every static type of its chain")
 EXPLANATION = ("theorems: for every well-formed hierarchy and every history the generated override check (pre-filter, "
                "GetAttr + IsSameCFunction, skip_dispatch) invokes the implementation Python attribute lookup selects when "
                "the dict-version cache is compiled out (default on CPython 3.12) - provided no extension subclass "
@@ -18,11 +23,20 @@ EXPLANATION = ("theorems: for every well-formed hierarchy and every history the 
                "without subclasses, refuted in general (stale cache after a base-class mutation), and equality for all "
                "histories for the repaired variant fx (result cached only for types whose bases are all immutable static types). partial: custom "
                "__getattribute__/__getattr__, metaclasses, data descriptors named m, __class__ assignment and "
-               "multiple-inheritance MROs beyond one mixin are outside the model; the MRO is data of the hierarchy.")
+               "multiple-inheritance MROs beyond one mixin are outside the model; the MRO is data of the hierarchy.  Vtable: for every "
+               "chain of cdef/cpdef declarations the compiler accepts and every static type, the slot reached through the vtable "
+               "(own function, or adapter with forwarded / constant skip_dispatch) runs the most-derived declaration with "
+               "skip_dispatch = 0 (C27_vtable_call_correct), composed with the override check for all histories "
+               "(C27_vdispatch_eq_*); an adapter passing 1 is refuted; slots, adapter bodies and call sites are parsed from the "
+               "generated C and compared with the extracted vtable.  partial: argument VALUES (optional-argument struct contents, "
+               "arity of the override) are only tested against the oracle; cimported/external declarations, fused cpdef methods, "
+               "inline methods and cpdef module functions are not generated.")
 TRUSTED = ["CPython attribute lookup (PyObject_GenericGetAttr/_PyType_Lookup) modelled as MRO search + instance dict shadowing of non-data descriptors",
            "CPython's ma_version_tag contract (every dict mutation yields a tag no dict had before; 0 = no dict)",
            "static extension types are immutable (type_setattro rejects), so their dict entry for m never changes",
-           "CPython executing the equivalent pure-Python hierarchy as the property oracle"]
+           "CPython executing the equivalent pure-Python hierarchy as the property oracle (cdef m = private attribute _c_m, cpdef m = _c_m redirecting to self.m())",
+           "regular expressions recognising vtable initialisation, adapter bodies and call sites in the generated C",
+           "C struct layout: `vtable.__pyx_base = *parent` copies every inherited slot; the vtable pointer of an object is the one of its extension base type"]
 ASSUMPTIONS = ["CPython 3.12 non-limited API build (CYTHON_USE_TYPE_SLOTS=1, CYTHON_USE_TYPE_SPECS=0): extension types are static types",
                "classes use the default type/object attribute protocol"]
 
@@ -328,11 +342,17 @@ VARIANTS = [("default", None, "0"), ("dictver", ["CYTHON_USE_DICT_VERSIONS=1"], 
 FX = os.environ.get("C27_FX", "0")      # default -> "1" once proposed_fixes/C27-stale_cache_base_class_mutation.diff is applied (model variant fx)
 
 
-def build_all(ctx, trees, tagname):
+def build_all(ctx, trees, tagname, extra=None):
+    """extra: one more build spec (the vtable module) built in parallel; its (so, err) is stored in extra['built']"""
     src = pyx_source(trees)
     specs = [dict(name="c27_%s_%s" % (tagname, v), source=src, workdir=os.path.join(ctx.workdir, "%s_%s" % (tagname, v)),
                   macros=mac, cflags=["-O0"]) for v, mac, _ in VARIANTS]
-    built = cybuild.build_many(specs, jobs=2)
+    if extra is not None:
+        built = cybuild.build_many(specs + [extra["spec"]], jobs=3)
+        extra["built"] = built[-1]
+        built = built[:-1]
+    else:
+        built = cybuild.build_many(specs, jobs=2)
     ok = []
     for sp, (so, err), (v, mac, cached) in zip(specs, built, VARIANTS):
         if err is not None:
@@ -409,7 +429,14 @@ def run(ctx):
     for rd in range(rounds):
         trees = [gen_tree(ctx.rng, i, FIXED_TREES[i]) for i in range(len(FIXED_TREES))]
         trees += [gen_tree(ctx.rng, i) for i in range(len(trees), len(trees) + (3 if quick else 6))]
-        variants = build_all(ctx, trees, "r%d" % rd)
+        vtrees = vtab.make_trees(ctx)
+        vextra = {"spec": vtab.build_spec(ctx, vtrees, "r%d" % rd)}
+        variants = build_all(ctx, trees, "r%d" % rd, extra=vextra)
+        so, err = vextra["built"]
+        if err is not None:
+            ctx.corr_break("build " + vextra["spec"]["name"], {"trees": vtrees}, str(err)[:1500], "module builds")
+        else:
+            vtab.run_cases(ctx, vtrees, vextra["spec"], vtab.gen_cases(ctx, vtrees))
         if not variants:
             return
         ctx.extra.setdefault("variants_built", []).append([v for v, _, _ in variants])
